@@ -62,3 +62,5 @@ package best
 //@   // received and no received response scores higher
 //@   ensures result1 != nil <==> n == 0
 //@   ensures result1 == nil ==> result0 != nil && validProposal(result0.Data) && got[result0.Data][bestScore] && (forall p *api.VersionedProposal, x float64 :: got[p][x] ==> x <= bestScore)
+//@   // C07: the nodes are given until the strategy's own (hard) timeout to answer, not only until its soft timeout
+//@   at call go#1: assert arg1 == ctx
